@@ -31,4 +31,11 @@ for d in dirs:
                         'stdout': c.stdout[-1500:]})
     print('%-10s %s' % (os.path.basename(d), ' | '.join(line)), flush=True)
     subprocess.run(['git', '-C', WT, 'checkout', '-q', '--', '.'], check=True)
-json.dump(results, open(os.path.join(V, 'seeded', 'eval_results.json'), 'w'), indent=1)
+rp = os.path.join(V, 'seeded', 'eval_results.json')
+try:
+    prev = json.load(open(rp))
+except Exception:
+    prev = []
+done = set(r['seeded'] for r in results)
+results = sorted([r for r in prev if r['seeded'] not in done] + results, key=lambda r: (r['seeded'], r['property']))
+json.dump(results, open(rp, 'w'), indent=1)
